@@ -2,5 +2,5 @@ SPECIFICATION Spec
 CONSTANTS
   LW = 3
   EMIT = TRUE
-INVARIANTS NoCutLaw DefaultPrintLaw SilentActionLaw PruneDepthLaw FileLaw NoErrLaw GoptLaw EmitVectors
+INVARIANTS NoCutLaw DefaultPrintLaw SilentActionLaw PruneDepthLaw FileLaw NoErrLaw RootsLaw GoptLaw EmitVectors
 CHECK_DEADLOCK FALSE
